@@ -25,9 +25,11 @@
 (assert (= (rlen nil) 0))
 (assert (= (rcap nil) 0))
 (assert (= (itag nil.Iface) 0))
+; A-ARCH: no slice or map object has more than 2^48 elements (user address space of linux/amd64 is 2^47 bytes);
+; strings and byte strings are mathematical sequences here (spec functions build them), so they carry no bound
 (assert (forall ((s Str)) (! (>= (slen s) 0) :pattern ((slen s)))))
 (assert (forall ((s Str)) (! (=> (= (slen s) 0) (= s str.empty)) :pattern ((slen s)))))
-(assert (forall ((r Ref)) (! (and (>= (rlen r) 0) (>= (rcap r) (rlen r))) :pattern ((rlen r)))))
+(assert (forall ((r Ref)) (! (and (>= (rlen r) 0) (>= (rcap r) (rlen r)) (<= (rlen r) 281474976710656)) :pattern ((rlen r)))))
 (assert (forall ((b Bytes)) (! (>= (blen b) 0) :pattern ((blen b)))))
 (assert (forall ((i Iface)) (! (=> (= (itag i) 0) (= i nil.Iface)) :pattern ((itag i)))))
 (assert (forall ((i Iface)) (! (>= (itag i) 0) :pattern ((itag i)))))
@@ -51,6 +53,8 @@
 (declare-fun strOf (Bytes) Str)
 (declare-fun bytes1 (Int) Bytes)
 (assert (forall ((a Bytes) (b Bytes)) (! (= (blen (bcat a b)) (+ (blen a) (blen b))) :pattern ((bcat a b)))))
+(assert (forall ((a Bytes)) (! (= (bcat bempty a) a) :pattern ((bcat bempty a)))))
+(assert (forall ((a Bytes)) (! (= (bcat a bempty) a) :pattern ((bcat a bempty)))))
 (assert (forall ((s Str)) (! (and (= (blen (bytesOf s)) (slen s)) (= (strOf (bytesOf s)) s)) :pattern ((bytesOf s)))))
 (assert (forall ((b Bytes)) (! (and (= (slen (strOf b)) (blen b)) (= (bytesOf (strOf b)) b)) :pattern ((strOf b)))))
 (assert (forall ((n Int)) (! (=> (>= n 0) (= (blen (bzeros n)) n)) :pattern ((bzeros n)))))
@@ -342,3 +346,22 @@
 ;@module keysets group hd
 ; NUT-02 keyset id as a function of the amount -> public key map (contents)
 (declare-fun ksid ((Array Int Bool) (Array Int Ref) (Array Ref github.com/decred/dcrd/dcrec/secp256k1/v4.PublicKey)) Str)
+
+;@module http bytes strings
+; Ghost model of one HTTP exchange (DESIGN.md §5.4): the status line and the
+; body written to the http.ResponseWriter of the handler under verification.
+; http.status == 0: nothing written yet (net/http then answers 200 at the first Write).
+;@ghost http.status Int
+;@ghost http.body Bytes
+; recorders (contract clause `records`): the error the mint operation / the
+; request decoder returned to the handler, and how often each was called
+;@ghost api.err Iface
+;@ghost api.calls Int
+;@ghost dec.err Iface
+;@ghost dec.calls Int
+; encoding/json output as a function of the marshalled interface value
+(declare-fun json.enc (Iface) Bytes)
+; (*url.URL).String() of an (immutable during the exchange) URL object
+(declare-fun url.str (Ref) Str)
+; what io.ReadAll reads from a request body reader
+(declare-fun io.content (Iface) Bytes)
